@@ -86,7 +86,7 @@ def coarse(site):
         def arith(e):
             c = _leaf(e)
             # how an intermediate was computed (a `?`, a sum, a variable) is not part of the shape
-            if c.startswith(".") or c.startswith("'") or c.lstrip("-").isdigit() or c in ("len", "as_ptr", "count"):
+            if c.startswith(".") or c.startswith("'") or c.lstrip("-").isdigit() or c in ("len", "as_ptr"):
                 return c
             return "x"
         return "%s,%s" % (arith(site["a"]), arith(site["b"]))
@@ -146,7 +146,7 @@ def sites(ctx, bodies):
                     idx = (t.get("arg_tys") or ["?", "?"])[1] if len(t.get("arg_tys") or []) > 1 else "?"
                     e0 = E.operand(t["args"][0]) if t["args"] else ("const", "?")
                     e1 = E.operand(t["args"][1]) if len(t["args"]) > 1 else ("const", "?")
-                    rk = "str" if re.search(r"^&(mut )?str$", recv) else ("map" if "HashMap" in recv else ("json" if "serde_json" in recv else "slice"))
+                    rk = "str" if re.search(r"^&(mut )?(str|std::string::String)$", recv) else ("map" if "HashMap" in recv else ("json" if "serde_json" in recv else "slice"))
                     add("index-" + rk, "%s[%s]" % (short(e0, 40), short(e1, 50)), bi, t["span"], {"recv": e0, "index": e1, "recv_ty": recv, "macro": exp})
                 elif PANICKY_STD.search(d) or PANICKY_STD.search(nm):
                     e = E.operand(t["args"][0]) if t["args"] else ("const", "?")
